@@ -214,3 +214,130 @@ theorem C17_plain_passthrough (o : NyctAlertsOpts) (id : Str) (a : AlertMsg)
   simp
 
 end Gtfs.Rt
+
+namespace Gtfs.Rt
+
+/-! ## exactly one output alert per group: the fold over a whole feed -/
+
+/-- the documented id of the group an alert entity belongs to (none: not an elevator alert) -/
+def groupKeyOf (o : NyctAlertsOpts) (e : Entity) : Option Str :=
+  match e.tripUpdate, e.vehicle, e.alert with
+  | none, none, some _ => (matchElevator e.id).map fun m => elevatorNewId o m.1 m.2.1 m.2.2
+  | _, _, _ => none
+
+/-- distinct keys in order of first appearance -/
+def firstOccurrences (l : List Str) : List Str := l.foldl (fun acc k => if acc.contains k then acc else acc ++ [k]) []
+
+def passStep (o : NyctAlertsOpts) (st : AlertPass) (e : Entity) : AlertPass :=
+  match e.tripUpdate, e.vehicle, e.alert with
+  | none, none, some a => alertPassStep o st e a
+  | _, _, _ => { st with done := st.done ++ [(e, false)] }
+
+theorem modifyAt_length {α} (l : List α) (i : Nat) (f : α → α) : (modifyAt l i f).length = l.length := by
+  simp [modifyAt]
+
+/-- one step: one entry is appended to `done`; the group table gains the entity's key iff it is an
+    elevator alert whose key is new, recorded with the position of that entry -/
+theorem passStep_spec (o : NyctAlertsOpts) (st : AlertPass) (e : Entity) :
+    (passStep o st e).done.length = st.done.length + 1 ∧
+    (passStep o st e).groups =
+      (match groupKeyOf o e with
+       | some k => if (akeys st.groups).contains k then st.groups else st.groups ++ [(k, st.done.length)]
+       | none => st.groups) := by
+  unfold passStep groupKeyOf
+  cases htu : e.tripUpdate <;> cases hv : e.vehicle <;> cases ha : e.alert <;> simp only [List.length_append, List.length_singleton, true_and]
+  rename_i a
+  unfold alertPassStep
+  cases hm : matchElevator e.id with
+  | none => simp
+  | some m =>
+    obtain ⟨station, suffix, elevator⟩ := m
+    simp only [Option.map_some]
+    cases hl : alookup (elevatorNewId o station suffix elevator) st.groups with
+    | some i =>
+      have hc : (akeys st.groups).contains (elevatorNewId o station suffix elevator) = true := by
+        simp only [List.contains_iff_mem, akeys, List.mem_map]
+        have : ∀ (m : List (Str × Nat)) k v, alookup k m = some v → ∃ p ∈ m, p.1 = k := by
+          intro m k v
+          induction m with
+          | nil => simp [alookup]
+          | cons q r ih =>
+            intro h
+            by_cases hq : q.1 == k
+            · exact ⟨q, by simp, by simpa using hq⟩
+            · simp only [alookup, hq, Bool.false_eq_true, if_false] at h
+              obtain ⟨p, hp, hpk⟩ := ih h
+              exact ⟨p, by simp [hp], hpk⟩
+        exact this _ _ _ hl
+      have hc' : elevatorNewId o station suffix elevator ∈ akeys st.groups := by simpa using hc
+      simp [hc', modifyAt_length]
+    | none =>
+      have hc : (akeys st.groups).contains (elevatorNewId o station suffix elevator) = false := by
+        cases hcc : (akeys st.groups).contains (elevatorNewId o station suffix elevator) with
+        | false => rfl
+        | true =>
+          exfalso
+          simp only [List.contains_iff_mem, akeys, List.mem_map] at hcc
+          obtain ⟨p, hp, hpk⟩ := hcc
+          have : ∀ (m : List (Str × Nat)) k, (∃ p ∈ m, p.1 = k) → (alookup k m).isSome = true := by
+            intro m k
+            induction m with
+            | nil => simp
+            | cons q r ih =>
+              rintro ⟨p, hp, hpk⟩
+              by_cases hq : q.1 == k
+              · simp [alookup, hq]
+              · simp only [alookup, hq, Bool.false_eq_true, if_false]
+                rcases List.mem_cons.mp hp with rfl | hp
+                · simp [hpk] at hq
+                · exact ih ⟨p, hp, hpk⟩
+          have := this _ _ ⟨p, hp, hpk⟩
+          rw [hl] at this; simp at this
+      simp only [hc, Bool.false_eq_true, if_false]
+      split <;> simp
+
+/-- **one output group per distinct key, in order of first appearance**: after the pre-pass over any
+    feed the group table's keys are exactly the distinct documented ids of the feed's elevator
+    alerts – independent of how many members each group has -/
+theorem C17_group_keys (o : NyctAlertsOpts) (es : List Entity) :
+    akeys (es.foldl (passStep o) {}).groups = firstOccurrences (es.filterMap (groupKeyOf o)) := by
+  suffices H : ∀ (es : List Entity) (st : AlertPass) (seen : List Str), akeys st.groups = seen →
+      akeys (es.foldl (passStep o) st).groups
+        = (es.filterMap (groupKeyOf o)).foldl (fun acc k => if acc.contains k then acc else acc ++ [k]) seen from
+    H es {} [] rfl
+  intro es
+  induction es with
+  | nil => intro st seen h; simpa using h
+  | cons e r ih =>
+    intro st seen h
+    simp only [List.foldl_cons]
+    cases hk : groupKeyOf o e with
+    | none =>
+      simp only [List.filterMap_cons, hk]
+      apply ih
+      rw [(passStep_spec o st e).2, hk]; exact h
+    | some k =>
+      simp only [List.filterMap_cons, hk, List.foldl_cons]
+      apply ih
+      rw [(passStep_spec o st e).2, hk, ← h]
+      simp only
+      split <;> simp [akeys]
+
+/-- the pre-pass of `ParseRealtime` is this fold -/
+theorem C17_prepass_is_fold (o : NyctAlertsOpts) (m : Msg) :
+    prepass (.alerts o) m = (m.entities.foldl (passStep o) {}).done := rfl
+
+/-- every entity yields exactly one pre-processed entry (skipped or not), in feed order -/
+theorem C17_one_entry_per_entity (o : NyctAlertsOpts) (es : List Entity) :
+    (es.foldl (passStep o) {}).done.length = es.length := by
+  suffices H : ∀ (es : List Entity) (st : AlertPass), (es.foldl (passStep o) st).done.length = st.done.length + es.length from by
+    simpa using H es {}
+  intro es
+  induction es with
+  | nil => intro st; simp
+  | cons e r ih =>
+    intro st
+    simp only [List.foldl_cons, List.length_cons]
+    rw [ih, (passStep_spec o st e).1]; omega
+
+end Gtfs.Rt
